@@ -166,6 +166,7 @@ type Cluster struct {
 	OptionsMute int32 // when 1, OPTIONS on muted connections are swallowed (always the case); kept for clarity
 	optionsSeen sync.Map // conn id → *int32 count of OPTIONS received
 	ever        sync.Map // peer address → *Conn, for every connection ever accepted
+	slowUse     map[string]time.Duration // canonical keyspace → delay before USE is answered
 }
 
 var clusterSeq int32
@@ -241,6 +242,17 @@ func (c *Cluster) HostIdxOfAddr(addr string) int {
 func (c *Cluster) SetScript(f func(*Arrival) Outcome) { c.mu.Lock(); c.script = f; c.mu.Unlock() }
 
 func (c *Cluster) AddKeyspace(k string) { c.mu.Lock(); c.ks[k] = true; c.mu.Unlock() }
+
+// SetSlowUse makes every USE of the keyspace take d before it is answered (a slow backend).
+func (c *Cluster) SetSlowUse(k string, d time.Duration) {
+	c.mu.Lock()
+	if c.slowUse == nil {
+		c.slowUse = map[string]time.Duration{}
+	}
+	c.slowUse[k] = d
+	c.ks[k] = true
+	c.mu.Unlock()
+}
 
 // SetListed changes whether host i appears in system.local/system.peers.
 func (c *Cluster) SetListed(i int, listed bool) { c.mu.Lock(); c.listed[i] = listed; c.mu.Unlock() }
@@ -740,7 +752,11 @@ func (x *Conn) handle(hdr *frame.Header, raw []byte) {
 			canon := Canonical(name)
 			c.mu.Lock()
 			ok := c.ks[canon]
+			slow := c.slowUse[canon]
 			c.mu.Unlock()
+			if slow > 0 {
+				time.Sleep(slow)
+			}
 			if ok {
 				x.smu.Lock()
 				x.keyspace = canon
